@@ -237,6 +237,11 @@ func (d *DiskSeam) After(c *simos.Call, err error) {
 		if err == nil || c.Op == "write" {
 			now := time.Now()
 			p := c.Path
+			if !realfp.IsAbs(p) {
+				if abs, err := realfp.Abs(p); err == nil {
+					p = abs
+				}
+			}
 			if within(d.Sandbox, realfp.Clean(p)) {
 				realos.Chtimes(p, now, now)
 			}
